@@ -1283,3 +1283,391 @@ def patched_byte_restored(prog, rule, units=("parser.c",)):
             else:
                 rule.ok(key, "restored from `%s` before every exit on which parsing continues" % sv)
     return n
+
+
+def capacity_matches_allocation(prog, rule, units=("value.c",)):
+    """A `capacity` field records how many elements (bytes, for the byte buffers) the block its object owns can hold; growth
+    decisions compare the fill count with it.  Wherever a function stores a non-constant capacity, the same function must
+    allocate a block of exactly that many elements (the linear forms of the stored capacity and of the allocation count are
+    equal, locals resolved through their single definition); a larger stored capacity lets later insertions write past
+    the block."""
+    n = 0
+    for fn in prog.all_functions():
+        if units and fn.unit not in units:
+            continue
+        stores = []
+        for (b, i, r, a) in fn.eval_sites("asg"):
+            lp = path(strip(a.get("lhs"))) or ""
+            if (lp.endswith(".capacity") or lp.endswith("->capacity")) and a.get("op") == "=" and const(a.get("rhs")) is None:
+                stores.append((b, i, a, lp))
+        if not stores:
+            continue
+        # single-definition locals: name -> defining expression
+        defs = {}
+        multi = set()
+        for (b, i, r, x) in fn.eval_sites():
+            if x.get("k") == "decl":
+                for v in x.get("vars", []):
+                    if v.get("init") is not None:
+                        if v["name"] in defs:
+                            multi.add(v["name"])
+                        defs[v["name"]] = v["init"]
+            elif x.get("k") == "asg":
+                l = strip(x.get("lhs"))
+                if isinstance(l, dict) and l.get("k") == "ref":
+                    if l["name"] in defs or x.get("op") != "=":
+                        multi.add(l["name"])
+                    defs[l["name"]] = x.get("rhs")
+            elif x.get("k") == "un" and x.get("op") in ("post++", "post--", "pre++", "pre--"):
+                l = strip(x.get("e"))
+                if isinstance(l, dict) and l.get("k") == "ref":
+                    multi.add(l["name"])
+
+        def lin(e, depth=0):
+            lf = _linear(e)
+            if lf is None or depth > 4:
+                return lf
+            out = {"": lf.get("", 0)}
+            for k2, v in lf.items():
+                if not k2:
+                    continue
+                if k2 in defs and k2 not in multi:
+                    sub = lin(defs[k2], depth + 1)
+                    if sub is not None:
+                        for k3, v3 in sub.items():
+                            out[k3] = out.get(k3, 0) + v * v3
+                        continue
+                out[k2] = out.get(k2, 0) + v
+            return {k2: v for k2, v in out.items() if v != 0 or k2 == ""}
+        allocs = []
+        for (b, i, r, c) in fn.calls():
+            if c.get("callee") not in ("malloc", "realloc", "calloc") or not c.get("args"):
+                continue
+            if c["callee"] == "calloc" and len(c["args"]) == 2:
+                cnt = c["args"][0]
+            else:
+                cnt = _count_of_size(c["args"][-1])
+                if cnt is None:
+                    cnt = c["args"][-1]        # byte buffers: the size is the count
+            allocs.append((c, lin(cnt), cnt))
+        # where each allocation's result goes: directly into a path, or into a local that is then stored into a path
+        alloc_dest = {}
+        for (b, i, r, x) in fn.eval_sites():
+            pairs = []
+            if x.get("k") == "asg" and x.get("op") == "=":
+                pairs.append((path(strip(x.get("lhs"))), x.get("rhs")))
+            elif x.get("k") == "decl":
+                pairs.extend((v["name"], v.get("init")) for v in x.get("vars", []) if v.get("init") is not None)
+            for tgt, rhs in pairs:
+                if not tgt or rhs is None:
+                    continue
+                for y in walk(rhs):
+                    if y.get("k") == "call" and y.get("callee") in ("malloc", "realloc", "calloc"):
+                        alloc_dest.setdefault(y.get("id"), set()).add(tgt)
+        changed = True
+        while changed:
+            changed = False
+            for (b, i, r, x) in fn.eval_sites("asg"):
+                if x.get("op") != "=":
+                    continue
+                tgt, src = path(strip(x.get("lhs"))), path(strip(x.get("rhs")))
+                if tgt and src:
+                    for cid, ds in alloc_dest.items():
+                        if src in ds and tgt not in ds:
+                            ds.add(tgt)
+                            changed = True
+        all_allocs = allocs
+        for (b, i, a, lp) in stores:
+            n += 1
+            want = lin(a.get("rhs"))
+            key = "%s:L%s:%s" % (fn.name, a.get("l"), lp)
+            owner = re.sub(r"(->|\.)capacity$", "", lp)
+            allocs = [t for t in all_allocs if any(d.startswith(owner + "->") or d.startswith(owner + ".")
+                                                   for d in alloc_dest.get(t[0].get("id"), ()))]
+            if not allocs:
+                rule.ok(key, "no block allocated here is stored into `%s`: the capacity describes a block handed in by the caller" % owner)
+                continue
+            if want is None:
+                rule.unproved(key, "capacity expression `%s` is not linear" % show(a.get("rhs"))[:60])
+                continue
+            match = [c for (c, lf, cnt) in allocs if lf is not None and lf == want]
+            smaller = [c for (c, lf, cnt) in allocs if lf is not None and lf != want
+                       and all(lf.get(k2, 0) == want.get(k2, 0) for k2 in set(lf) | set(want) if k2) and want.get("", 0) <= lf.get("", 0)]
+            if match or smaller:
+                rule.ok(key, "equals the element count of the allocation at L%s" % (match or smaller)[0].get("l"))
+            else:
+                rule.violation(fn.file, fn.name, a.get("l"), "capacity-not-allocation-count:%s" % fn.name,
+                               "`%s = %s` (L%s) is not the element count of any block this function allocates (%s): when the stored "
+                               "capacity exceeds the block, later insertions that trust it write past the allocation"
+                               % (lp, show(a.get("rhs"))[:50], a.get("l"),
+                                  "; ".join("L%s: %s" % (c.get("l"), show(cnt)[:40]) for (c, lf, cnt) in allocs)))
+    return n
+
+
+INTEGRAL = re.compile(r"^(unsigned |signed )?(size_t|ssize_t|int|long|short|int32_t|uint32_t|int64_t|unsigned)( int)?$")
+
+
+def clean_resets_bounds(prog, rule):
+    """A `*_clean` function that releases an indexed block must also leave the counters that bound it at zero: a field F of the
+    same structure is such a counter when some element access `....P[... F]` indexes the block P by it, or when it is compared
+    with such a field (capacity against size).  A failure handler may keep the cleaned object and later code walks it again
+    by those counters.  Decided with the A1 engine: the value of p->F at every exit is 0."""
+    from .interp import Interp
+    n = 0
+    # which (pointer field, counter field) pairs exist, per record
+    bounds = {}
+    for fn in prog.all_functions():
+        for (b, i, r, x) in fn.eval_sites("index"):
+            bp = path(strip(x.get("base"))) or ""
+            pf = re.split(r"->|\.", bp)[-1] if ("->" in bp or "." in bp) else None
+            if not pf:
+                continue
+            for y in walk(x.get("idx")):
+                yp = path(y) if y.get("k") == "member" else None
+                if yp:
+                    bounds.setdefault(pf, set()).add(re.split(r"->|\.", yp)[-1])
+    for fn in prog.all_functions():
+        for (b, i, r, x) in fn.eval_sites("bin"):
+            if x.get("op") not in ("<", "<=", ">", ">=", "=="):
+                continue
+            lp, rp = path(strip(x.get("lhs"))), path(strip(x.get("rhs")))
+            if lp and rp and ("->" in lp or "." in lp) and ("->" in rp or "." in rp):
+                lf, rf = re.split(r"->|\.", lp)[-1], re.split(r"->|\.", rp)[-1]
+                for pf, fs in bounds.items():
+                    if lf in fs and rf not in fs and lp[:-len(lf)] == rp[:-len(rf)]:
+                        fs.add(rf)
+                    elif rf in fs and lf not in fs and lp[:-len(lf)] == rp[:-len(rf)]:
+                        fs.add(lf)
+    for fn in prog.all_functions():
+        if not re.search(r"_clean$", fn.name) or not fn.params:
+            continue
+        p0 = fn.params[0]
+        m = re.match(r"^struct (\w+) \*$", p0.get("t", "").strip())
+        rec = prog.records.get(m.group(1)) if m else None
+        if not rec:
+            continue
+        integral = {f["name"] for f in rec.get("fields", []) if INTEGRAL.match(f.get("t", "").strip())}
+        unsigned = {f["name"] for f in rec.get("fields", []) if f.get("t", "").strip() in ("size_t", "unsigned", "unsigned int", "uint32_t")}
+        freed = set()
+        for (b, i, r, c) in fn.calls_to("free"):
+            ap = path(strip(c["args"][0])) if c.get("args") else None
+            if ap and ap.startswith(p0["name"] + "->") and "[" not in ap:
+                freed.add(ap.split("->", 1)[1])
+        frees_self = any(c.get("args") and path(strip(c["args"][0])) == p0["name"] for (b, i, r, c) in fn.calls_to("free"))
+        for pf in sorted(freed):
+            for cf in sorted(bounds.get(pf, set()) & integral):
+                n += 1
+                key = "%s:%s bounds %s" % (fn.name, cf, pf)
+                if frees_self:
+                    rule.ok(key, "the object itself is freed")
+                    continue
+                tp = "%s->%s" % (p0["name"], cf)
+                seen = []
+
+                class _I(Interp):
+                    def clobbered_by_call(self, st, node):
+                        # a callee that is handed neither the object nor the address of one of its fields cannot write its
+                        # counters (free(p->block), the release of an element)
+                        reach = False
+                        for a in node.get("args", []):
+                            for y in walk(a):
+                                if y.get("k") == "ref" and y.get("name") == p0["name"]:
+                                    par = strip(a)
+                                    if path(par) == p0["name"] or (isinstance(par, dict) and par.get("k") == "un" and par.get("op") == "&"):
+                                        reach = True
+                        out = super().clobbered_by_call(st, node)
+                        return out if reach else [q for q in out if q != tp]
+
+                    def on_return(self, st, node, av):
+                        seen.append(st.sigma.get(tp))
+
+                    def on_fall_off(self, st):
+                        seen.append(st.sigma.get(tp))
+                it = _I(prog, fn)
+                it.track_also([tp])
+                it.run()
+                if not seen:
+                    rule.unproved(key, "no exit state observed")
+                    continue
+
+                def zero(av):
+                    if av is None:
+                        return False
+                    if av.is_const():
+                        return av.value() == 0
+                    return cf in unsigned and av.hi is not None and av.hi <= 0
+                if all(zero(v) for v in seen):
+                    rule.ok(key, "`%s` is 0 at every exit (%d exit states)" % (tp, len(seen)))
+                else:
+                    rule.violation(fn.file, fn.name, fn.line, "clean-keeps-count:%s:%s" % (fn.name, cf),
+                                   "%s releases %s->%s but can return with %s->%s not reset to 0: the object stays alive (failure "
+                                   "handlers keep it, e.g. the target of an in-place copy), and the next walk over %s by that count "
+                                   "reads freed memory" % (fn.name, p0["name"], pf, p0["name"], cf, pf))
+    return n
+
+
+def run_counters(prog, rule, units=("parser.c",)):
+    """A counter of *consecutive* occurrences of a character (incremented where the scanned character equals it, and compared
+    with a threshold of two or more) must be reset by every other character: from the failing edge of the equality test no
+    path may come round to the test again without passing `counter = 0`.  Otherwise occurrences separated by other characters
+    (a line terminator, say) are counted as one run.  Returns the number of counters judged."""
+    n = 0
+    for fn in prog.all_functions():
+        if units and fn.unit not in units:
+            continue
+        locals_ = {l["name"] for l in fn.locals}
+        incs = {}
+        for (b, i, r, x) in fn.eval_sites():
+            v = None
+            if x.get("k") == "un" and x.get("op") in ("pre++", "post++"):
+                v = path(strip(x.get("e")))
+            elif x.get("k") == "asg" and x.get("op") == "+=" and const(x.get("rhs")) == 1:
+                v = path(strip(x.get("lhs")))
+            if v in locals_:
+                incs.setdefault(v, []).append((b, i, x))
+        for v, sites in sorted(incs.items()):
+            # compared with a threshold >= 2 ?
+            thr = None
+            for (b, i, r, x) in fn.eval_sites("bin"):
+                if x.get("op") in (">=", ">", "==") :
+                    for side, other in (("lhs", "rhs"), ("rhs", "lhs")):
+                        y = strip(x.get(side))
+                        if isinstance(y, dict) and (path(y) == v or (y.get("k") == "un" and y.get("op") in ("pre++", "post++") and path(strip(y.get("e"))) == v)):
+                            c = const(x.get(other))
+                            if c is not None and c >= 2:
+                                thr = c
+            if thr is None:
+                continue
+            resets = {b.id for (b, i, r, a) in fn.eval_sites("asg") if path(strip(a.get("lhs"))) == v and a.get("op") == "=" and const(a.get("rhs")) == 0}
+            if not resets:
+                continue
+            for (ib, ii, ix) in sites:
+                # the equality test on a scanned character whose true edge guards the increment
+                guard = None
+                for tb in fn.blocks.values():
+                    if len(tb.succs) != 2 or tb.succs[0] is None:
+                        continue
+                    c = cfgq.cond_of(fn, tb)
+                    cs = strip(c) if c is not None else None
+                    if not (isinstance(cs, dict) and cs.get("k") == "bin" and cs.get("op") == "=="):
+                        continue
+                    if ib.id in cfgq.reach(fn, [tb.succs[0]], {tb.id}) | {tb.succs[0]} and \
+                            (tb.succs[1] is None or ib.id not in (cfgq.reach(fn, [tb.succs[1]], {tb.id}) | {tb.succs[1]})):
+                        if guard is None or tb.id in cfgq.reach(fn, [guard.succs[0]], {guard.id}):
+                            guard = tb
+                if guard is None or guard.succs[1] is None:
+                    continue
+                n += 1
+                key = "%s:%s (run of `%s`, threshold %d)" % (fn.name, v, show(strip(cfgq.cond_of(fn, guard)))[:30], thr)
+                free = cfgq.reach(fn, [guard.succs[1]], resets | {ib.id}) | {guard.succs[1]}
+                if guard.succs[1] in resets:
+                    free = set()
+                if guard.id in free:
+                    rule.violation(fn.file, fn.name, guard.term.get("l"), "run-counter-not-reset:%s:%s" % (fn.name, v),
+                                   "`%s` counts consecutive characters satisfying `%s` (L%s) up to %d, but a character that fails the "
+                                   "test can reach the next test without `%s = 0`: occurrences separated by such characters are "
+                                   "counted as one run" % (v, show(strip(cfgq.cond_of(fn, guard)))[:40], guard.term.get("l"), thr, v))
+                else:
+                    rule.ok(key, "reset on every path from the failed test to the next character")
+    return n
+
+
+def stale_state_copies(prog, rule, unit, field, describe):
+    """Locals that hold a value computed from the mutable state field `field` (e.g. the writer's last_column) must not be read
+    after a call that may change the field, unless they were assigned again in between (from the field, or from values that
+    are not themselves stale - the writer's `last_column = 0` after a successful write_newline()).  Forward may-dataflow per
+    function, over all functions of `unit`; the set of calls that may change the field is the transitive closure of the
+    functions that store to it.  Returns the number of derived locals examined."""
+    def mentions_field(e):
+        return any(x.get("k") == "member" and x.get("name") == field for x in walk(e))
+    writers = set()
+    for f in prog.all_functions():
+        for (b, i, r, a) in f.eval_sites("asg"):
+            if (path(strip(a.get("lhs"))) or "").endswith(field) and ("->" in (path(strip(a.get("lhs"))) or "") or "." in (path(strip(a.get("lhs"))) or "")):
+                writers.add(f.name)
+    changed = True
+    while changed:
+        changed = False
+        for f in prog.all_functions():
+            if f.name not in writers and prog.callees(f) & writers:
+                writers.add(f.name)
+                changed = True
+    n = 0
+    for fn in prog.all_functions():
+        if fn.unit != unit:
+            continue
+        locals_ = {l["name"] for l in fn.locals}
+        D = set()
+        for (b, i, r, x) in fn.eval_sites():
+            if x.get("k") == "decl":
+                for v in x.get("vars", []):
+                    if v.get("init") is not None and mentions_field(v["init"]):
+                        D.add(v["name"])
+            elif x.get("k") == "asg" and x.get("op") == "=":
+                lp = path(strip(x.get("lhs")))
+                if lp in locals_ and mentions_field(x.get("rhs")):
+                    D.add(lp)
+        if not D:
+            continue
+        IN = {b: None for b in fn.blocks}
+        IN[fn.entry] = frozenset()
+        reports = {}
+
+        def transfer(bid, state, record):
+            st = set(state)
+            for r in fn.blocks[bid].roots:
+                evs = walk_eval(r)
+                lhs_ids = set()
+                for x in evs:
+                    if x.get("k") == "asg" and x.get("op") == "=":
+                        l = strip(x.get("lhs"))
+                        if isinstance(l, dict) and l.get("k") == "ref":
+                            lhs_ids.add(l.get("id"))
+                for x in evs:
+                    k = x.get("k")
+                    if k == "ref" and x.get("name") in st and x.get("id") not in lhs_ids and x.get("dk") == "local":
+                        if record:
+                            reports.setdefault(x["name"], x)
+                    elif k == "call":
+                        c = x.get("callee")
+                        if c in writers or (c is None and x.get("fn") is not None):
+                            st |= D
+                    elif k == "asg":
+                        lp = path(strip(x.get("lhs")))
+                        if lp and lp.endswith(field) and lp not in locals_:
+                            st |= D             # the field itself is stored: copies made before are out of date
+                        elif lp in D and x.get("op") == "=":
+                            if any(y.get("k") == "ref" and y.get("name") in st and y.get("name") != lp for y in walk(x.get("rhs"))):
+                                st.add(lp)
+                            else:
+                                st.discard(lp)
+                    elif k == "decl":
+                        for v in x.get("vars", []):
+                            if v["name"] in D:
+                                st.discard(v["name"])
+            return frozenset(st)
+        work = [fn.entry]
+        while work:
+            b = work.pop()
+            out = transfer(b, IN[b], False)
+            for s_ in fn.blocks[b].succs:
+                if s_ is None:
+                    continue
+                new = out if IN[s_] is None else (IN[s_] | out)
+                if new != IN[s_]:
+                    IN[s_] = new
+                    work.append(s_)
+        for b in fn.blocks:
+            if IN[b] is not None:
+                transfer(b, IN[b], True)
+        for name in sorted(D):
+            n += 1
+            if name in reports:
+                x = reports[name]
+                rule.violation(fn.file, fn.name, x.get("l"), "stale-copy:%s:%s" % (fn.name, name),
+                               "`%s` was computed from %s before a call that may change it (%s) and is read again at L%s without "
+                               "having been recomputed: %s" % (name, field, ", ".join(sorted(prog.callees(fn) & writers))[:120], x.get("l"), describe))
+            else:
+                rule.ok("%s:%s" % (fn.name, name), "recomputed (or reset) after every call that may change %s" % field)
+    return n
+
